@@ -263,6 +263,21 @@ def main(tier):
     if unknown:
         return finish(ev, fnd, unknown)
 
+    # 1b. contractions on 5 handles, cases style: K5 minus one of the four edge sets with <= 2 edges (up to isomorphism),
+    # every valid set of <= 2 (thorough 3) blockers loaded through add_edge_without_blockers / add_blocker, then every
+    # contraction of every edge in both orientations (a blocker that is itself a candidate for the new blockers needs 5 vertices)
+    cfg5 = "MC_SkeletonBlocker_c5.cfg" if tier == "quick" else "MC_SkeletonBlocker_c5_t.cfg"
+    rc = vf.tlc("MC_SkeletonBlocker", cfg5, timeout=1100)
+    if rc.violation:
+        return model_violation(ev, "contract_v5", rc)
+    gc = vf.StateGraph.from_tlc(rc.outfile, init_id=INIT_ID)
+    ev.add_tlc("contract_v5", rc, {"graph_states": len(gc.obs), "graph_edges": gc.nedges, "cfg": cfg5})
+    os.remove(rc.outfile)
+    evaluations += replay_graph(ev, "contract_v5", gc, replay_bins, 5, False, fnd, unknown, shards=4)
+    distinct += len(gc.obs)
+    if unknown:
+        return finish(ev, fnd, unknown)
+
     if tier == "thorough":
         # 2a. in-model theorems on 5 handles (polynomial homology, validated against the definition on 4 handles)
         r5 = vf.tlc("MC_SkeletonBlocker", "MC_SkeletonBlocker_v5thm.cfg", workers=4, timeout=1100)
